@@ -150,7 +150,7 @@ pub struct Stats {
 
 pub const MAX_SAMPLES: usize = 5;
 /// cap for the set of non-trivial hashes kept per shard (memory guard); beyond it the count saturates
-pub const MAX_NONTRIVIAL: usize = 4_000_000;
+pub const MAX_NONTRIVIAL: usize = 1_500_000;
 
 impl Stats {
     pub fn new() -> Self {
@@ -570,6 +570,7 @@ impl Report {
                 "evaluations": self.stats.evaluations,
                 "cases_generated": self.stats.cases,
                 "distinct_nontrivial": self.stats.nontrivial.len(),
+                "distinct_nontrivial_saturated": self.stats.nontrivial.len() >= MAX_NONTRIVIAL,
                 "rule": self.rule,
                 "samples": self.stats.samples,
                 "classes": self.stats.classes,
